@@ -72,10 +72,11 @@ def _run(tier, seed, replay=None):
     hist, ops = (3, 14) if tier == "quick" else (16, 30)
     res = vlib.harness_json(vd, ["c13", "-bin", rec, "-dir", os.path.join(wd, "runs"), "-seed", str(seed), "-histories", str(hist), "-ops", str(ops), "-inproc-bin", inproc],
                             wd, timeout=3000, name="vd_c13")
-    if res.get("inconclusive"):
-        raise vlib.Inconclusive("; ".join(res["inconclusive"][:5]))
     for viol in res["violations"]:
         v.violation(viol["sig"], viol["what"], viol["replay"])
+    if res.get("inconclusive") and not v.violations:
+        # deadline hits / tool failures without any definite wrong value
+        raise vlib.Inconclusive("; ".join(res["inconclusive"][:5]))
     ex = res["extra"]
     traces = 0
     tv = {}
